@@ -604,6 +604,14 @@ fn run_poll(c: &PollCase) -> Vec<&'static str> {
     cl
 }
 
+/// `run_poll` with the oracle's panics turned into (clause, detail).
+pub(crate) fn run_poll_checked(c: &PollCase) -> Result<Vec<&'static str>, (String, String)> {
+    match std::panic::catch_unwind(std::panic::AssertUnwindSafe(|| run_poll(c))) {
+        Ok(cl) => Ok(cl),
+        Err(e) => Err(super::split_panic(&super::panic_text(e))),
+    }
+}
+
 pub(crate) struct ChanPollSub;
 
 impl SubCheck for ChanPollSub {
